@@ -126,8 +126,14 @@ def dedup_histories(results, extra):
     return list(seen.values())
 
 
+XSENT = {"+Inf": 1000000000, "-Inf": -1000000000, "NaN": 1000000007, "-0": 0}
+
+
 def intify(v):
-    """integral floats (e.g. the -0.0 of a scripted `set`) -> ints, so that histories stay inside the specification's integers"""
+    """integral floats (e.g. the -0.0 of a scripted `set`) -> ints, so that histories stay inside the specification's integers;
+    non-finite values -> the sentinels of LinGauge (PInf, NInf, NaN)"""
+    if isinstance(v, str) and v in XSENT:
+        return XSENT[v]
     if isinstance(v, float) and v == int(v):
         return int(v)
     if isinstance(v, list):
